@@ -74,6 +74,24 @@ def validate_cases(tier, seed):
         cs.append({"shape": sh})
     for a1 in range(4):                      # 7: operations, by kind of the first one
         cs.append({"shape": 7, "alt1": a1})
+    cs.append({"shape": 10})                 # misspelt names with tied suggestion candidates
+    return cs
+
+
+def determinism_cases(tier, seed):
+    """hval.Deterministic validates every document six times, so the quick tier takes the
+    lighter pieces of each shape; thorough takes every piece of validate_cases."""
+    if tier == "thorough":
+        return validate_cases(tier, seed)
+    cs = [{"shape": 10}, {"shape": 9}, {"shape": 5}, {"shape": 6}, {"shape": 3}, {"shape": 4}]
+    for a3 in (0, 2, 4):
+        cs.append({"shape": 0, "alt3": a3})
+    for a1, a3 in ((0, 0), (1, 1), (2, 2), (3, 3), (4, 0)):
+        cs.append({"shape": 1, "alt1": a1, "alt3": a3})
+    for top in range(3):
+        cs.append({"shape": 2, "top": top, "inline": 0, "aspread": 1, "frag2": 0, "bspread": 0})
+        cs.append({"shape": 2, "top": top, "inline": 1, "aspread": 0, "frag2": 1, "bspread": 0})
+    cs.append({"shape": 7, "alt1": 0})
     return cs
 
 
@@ -140,6 +158,16 @@ CHECKS = {
                    "thorough": "same with the heaviest fragment pieces"},
         "outside": "schema loading on arbitrary SDL (no harness yet); polynomial running time on kilobyte documents; adversarial size-parametrised families",
         "assumptions": VALIDATE_ASSUME,
+    },
+    "C10": {
+        "units": [{"pkg": "verifh/hval", "fn": "Deterministic", "cases": determinism_cases, "panic_prop": None}],
+        "covers": ["C10.compared-nonempty-lists"],
+        "case_timeout": {"quick": 500, "thorough": 3000},
+        "level_text": "Self-composition on the symbolic documents of C08: the same document is validated twice as the same tree, twice as fresh parses in one run (package-level state is part of the engine's state), and as fresh parses while every `range` over a map visits its entries in insertion order, reversed, rotated by one, and odd positions first; the error lists (rule, message text, locations, order) are asserted equal and the comparison is decided by z3 where names are symbolic. Three alternative iteration orders per map are a bounded stand-in for Go's unspecified order, not all permutations.",
+        "bounds": {"quick": "26 pieces of the document shapes (every shape, lighter pieces), incl. misspelt names chosen to tie between suggestion candidates; 4 map iteration orders",
+                   "thorough": "all pieces of the C08 shapes"},
+        "outside": "iteration orders other than the four tried; hash-seed effects not expressible as iteration order; sort sizes above 12 (sort.Slice is modelled by a stable insertion sort, the real one is unstable there); natively a difference is confirmed by 40 repetitions under Go's randomised order, which is probabilistic",
+        "assumptions": VALIDATE_ASSUME + ["sort.Slice / SliceStable run the caller's less function inside an engine-side insertion sort"],
     },
     "C11": {
         "units": [{"pkg": "verifh/hval", "fn": "SchemaReadOnly", "cases": validate_cases, "panic_prop": "C11"}],
